@@ -61,6 +61,58 @@ def generate(ctx):
     n = {"quick": 4000, "thorough": 100000}[ctx.tier]
     return [gen(ctx.rng) for _ in range(n)]
 
+def expected_visits(c):
+    """what a fully recursive visitor must reach (property C12: 'exactly the atoms, elements and terms that are stored and referenced, in current
+    mode only those added since the last step mark'): per mode the multiset of visited items (one visit per reference), or 'EXC' when a
+    reference that has to be followed names an absent item.  Written from the statement: table replay + reachability, no traversal order."""
+    terms, elems, atoms = {}, {}, []          # id -> list of referenced term ids ; id -> list of term ids ; (term, [elems], guard|None, rhs|None)
+    nT = nE = 0; mT = mE = mA = 0
+    DEFC = ":%d" % DEF
+    cond = {}
+    for o in c["ops"]:
+        f = o.split(":")
+        ids = lambda x: [] if x == "-" else [int(t) for t in x.split("/")]
+        if f[0] in ("tn", "ts", "tf", "tt"):
+            i = int(f[1])
+            if i in terms and i >= mT: continue
+            terms[i] = [] if f[0] in ("tn", "ts") else (ids(f[3]) + ([int(f[2])] if f[0] == "tf" else []))
+            nT = max(nT, i + 1)
+        elif f[0] == "rm": terms.pop(int(f[1]), None)
+        elif f[0] == "el":
+            i = int(f[1])
+            if i in elems and i >= mE: continue
+            elems[i] = ids(f[2]); nE = max(nE, i + 1)
+        elif f[0] == "at": atoms.append((int(f[1]), int(f[2]), ids(f[3]), None, None))
+        elif f[0] == "ag": atoms.append((int(f[1]), int(f[2]), ids(f[3]), int(f[4]), int(f[5])))
+        elif f[0] == "fl":
+            m = int(f[1]); atoms = atoms[:mA] + [a for a in atoms[mA:] if a[0] == 0 or a[0] % m != 0]
+        elif f[0] == "up": mT, mE, mA = nT, nE, len(atoms)
+        elif f[0] == "rs": terms, elems, atoms = {}, {}, []; nT = nE = 0; mT = mE = mA = 0
+    res = {}
+    for mode in ("all", "cur"):
+        seen = []
+        class Absent(Exception): pass
+        def term(i):
+            if mode == "cur" and not (i in terms and i >= mT): return
+            if i not in terms: raise Absent()
+            seen.append("t%d" % i)
+            for j in terms[i]: term(j)
+        try:
+            for k, (a, t, es, g, r) in enumerate(atoms):
+                if mode == "cur" and k < mA: continue
+                seen.append("a%d" % k)
+                term(t)
+                for e in es:
+                    if mode == "cur" and not (e in elems and e >= mE): continue
+                    if e not in elems: raise Absent()
+                    seen.append("e%d" % e)
+                    for j in elems[e]: term(j)
+                if g is not None: term(g); term(r)
+            res[mode] = sorted(seen)
+        except Absent: res[mode] = "EXC"
+        except RecursionError: res[mode] = None
+    return res
+
 def reference(c):
     """plain table semantics (property C12); returns the expected dump after every op ('X' = refused)."""
     W = c["W"]
@@ -118,6 +170,17 @@ def evaluate(ctx, cases):
         for j, (g, w) in enumerate(zip(toks[:-1], want)):
             if g != w:
                 ctx.fail("C12:lookup", "after op #%d (%s) the store answers differently from a plain table" % (j, c["ops"][j]), c, {"got": g[:500], "want": w[:500]}); break
+        import re as _re
+        mv = _re.match(r"V\[(.*?)\]C\[(.*?)\]", toks[-1])
+        if mv and len(toks) - 1 == len(want):
+            ev = expected_visits(c)
+            for mode, got in (("all", mv.group(1)), ("cur", mv.group(2))):
+                w = ev[mode]
+                if w is None: continue
+                g = "EXC" if got == "EXC" else sorted([] if got == "-" else got.split(","))
+                if g != w:
+                    ctx.fail("C12:visit", "visiting (%s mode) does not reach exactly the stored and referenced items" % ("all" if mode == "all" else "current"), c,
+                             {"got": got[:400], "want": ("EXC" if w == "EXC" else ",".join(w))[:400]}); break
         ctx.compared += 1
         if i != m: ctx.disagree("TheoryData:lookups+visit", c, i[-700:], m[-700:])
 
